@@ -15,7 +15,7 @@ THREADS = {"quick": 1, "thorough": 1}
 RULE = (
     "per case: one generated card, started from the full or from a restricted chain selection, x every operation in {partial_weight, "
     "partial_weight_interference, fit_fractions old/new, cal_fitfractions, factor_iteration, build_amp_matrix, "
-    "build_angle_amp_matrix, build_int_matrix, temp_params, mask_params, temp_used_res, temp_total_gls_one, temp_config, "
+    "build_angle_amp_matrix, build_int_matrix, temp_params (dict and positional override), mask_params, temp_used_res, temp_total_gls_one, temp_config, "
     "vm.temp_params, vm.mask_params, ConfigLoader.mask_params, nested blocks up to depth 3} x fault points: none (normal exit), an "
     "exception raised by the block body, an exception injected at EVERY k-th call the clean run made of the inner functions "
     "{DecayGroup.get_amp, DecayGroup.sum_amp, AbsPDF.pdf, VarsManager.set, VarsManager.read}, generators abandoned after the j-th "
@@ -230,7 +230,10 @@ def run(ctx):
             "partial_weight": op_partial_weight, "partial_weight_interference": op_partial_interf, "fit_fractions(old)": op_ff_old,
             "fit_fractions(new)": op_ff_new, "cal_fitfractions": op_cal_ff, "factor_iteration": op_factor_iter, "build_amp_matrix": op_amp_matrix,
             "build_angle_amp_matrix": op_angle_amp_matrix, "build_int_matrix": op_int_matrix,
-            "temp_params": cm(lambda: amp.temp_params(some)), "mask_params": cm(lambda: amp.mask_params({pnames[0]: 0.5})),
+            "temp_params": cm(lambda: amp.temp_params(some)),
+            # positional override (what a minimiser's x or vm.get_all_val() is): values of all trainable variables in order
+            "temp_params(positional)": cm(lambda: amp.temp_params([float(v_) + 0.37 for v_ in amp.vm.get_all_val()])),
+            "mask_params": cm(lambda: amp.mask_params({pnames[0]: 0.5})),
             "temp_used_res": cm(lambda: amp.temp_used_res(res_names[:1])), "temp_total_gls_one": cm(lambda: amp.temp_total_gls_one()),
             "temp_config": cm(lambda: tconfig.temp_config("vm", amp.vm)), "vm.temp_params": cm(lambda: amp.vm.temp_params(some)),
             "vm.mask_params": cm(lambda: amp.vm.mask_params({pnames[0]: 0.5})), "ConfigLoader.mask_params": cm(lambda: cfg.mask_params({pnames[0]: 0.5})),
